@@ -17,6 +17,70 @@ fn whole_build(ty: u64, ops: &[Op]) -> Option<Vec<u8>> {
     apply_ops(&mut b, ops);
     b.into_inner().ok()
 }
+/// accepts `room` bytes, then fails every write
+struct FullSink {
+    room: usize,
+}
+impl std::io::Write for FullSink {
+    fn write(&mut self, buf: &[u8]) -> std::io::Result<usize> {
+        if self.room == 0 {
+            return Err(std::io::Error::new(std::io::ErrorKind::Other, "full"));
+        }
+        let n = buf.len().min(self.room);
+        self.room -= n;
+        Ok(n)
+    }
+    fn flush(&mut self) -> std::io::Result<()> {
+        Ok(())
+    }
+}
+fn build_after_failed_builds_differs(ty: u64, ops: &[Op], expect: &Vec<u8>) -> Option<String> {
+    let n = expect.len();
+    // the sink fills up inside the header, right after it, inside the first nodes, in the middle, in the footer
+    let mut rooms = vec![0usize, 7, 16, 17, 18, 19, 21, 24, 33, n / 2, n.saturating_sub(21), n.saturating_sub(5), n.saturating_sub(1)];
+    rooms.sort();
+    rooms.dedup();
+    for room in rooms {
+        if room >= n {
+            continue;
+        }
+        // run on a fresh thread so that every position starts from a clean per-thread state
+        let r: Option<String> = std::thread::scope(|s| {
+            s.spawn(move || {
+                let failed = match fst::raw::Builder::new_type(FullSink { room }, ty) {
+                    Err(_) => true,
+                    Ok(mut b) => {
+                        let mut any_err = false;
+                        for o in ops {
+                            let r = match o {
+                                Op::Insert(k, v) => b.insert(k, *v),
+                                Op::Add(k) => b.add(k),
+                            };
+                            any_err |= r.is_err();
+                        }
+                        b.into_inner().is_err() || any_err
+                    }
+                };
+                if !failed {
+                    return Some(format!("a sink with room for {} of {} bytes: the build did not fail", room, n));
+                }
+                for round in 0..2 {
+                    if whole_build(ty, ops).as_ref() != Some(expect) {
+                        return Some(format!("build number {} after a build whose sink was full after {} of {} bytes", round + 1, room, n));
+                    }
+                }
+                None
+            })
+            .join()
+            .unwrap()
+        });
+        if r.is_some() {
+            return r;
+        }
+    }
+    None
+}
+
 /// Thread A (fresh) creates a builder and fills the first part; thread B (fresh) receives it, fills the
 /// rest and finishes it, then makes two builds of its own and creates a third builder that goes back to
 /// A's side (this thread). Every result must be `expect`. Returns the name of the first one that is not.
@@ -219,6 +283,13 @@ impl Prop for P {
             x = format!("bytes differ for a builder that changed threads ({})", which);
         }
         crate::common::xcount("c15_migrating_builders");
+        // a build on this thread right AFTER builds that failed (the sink stops accepting at some byte, or
+        // fails once and then recovers while the caller gives up): whatever a failed build leaves behind
+        // in the crate must not show in the next one
+        if let Some(which) = build_after_failed_builds_differs(ty, &ops, &bytes) {
+            x = format!("bytes differ for a build that follows a failed build on the same thread ({})", which);
+        }
+        crate::common::xcount("c15_build_after_failed_build");
         let f = fst::raw::Fst::new(bytes.clone()).unwrap();
         let kvs = f.stream().into_byte_vec();
         format!("S:r=ok;c={};len={}\tM:bytes={};bw=na;st=na\tX:{}", fmt_kvs(&kvs), f.len(), hex(&bytes), x)
